@@ -1153,6 +1153,10 @@ func (p *ChangeTssECDSAPubKeyMethod) ReceiveBlock(context vm_context.AccountVmCo
 	pubKey, _ := base64.StdEncoding.DecodeString(param.PubKey)
 
 	X, Y := secp256k1.DecompressPubkey(pubKey)
+	// 33 bytes which are not a compressed point of the curve
+	if X == nil || Y == nil {
+		return nil, constants.ErrInvalidCompressedECDSAPubKey
+	}
 	dPubKeyBytes := make([]byte, 1)
 	dPubKeyBytes[0] = 4
 	dPubKeyBytes = append(dPubKeyBytes, X.Bytes()...)
